@@ -33,6 +33,7 @@ class DoBlockOperation(Contract):
     """carries the loop invariants only: the function is verified inlined into its two callers, so that the
     real status-to-result tables they pass are what is checked"""
     helper = True
+    modifies_self = dict(last_comm_exception=OPAQUE("last_comm_exception"))
     loop_locals = {0: dict(response=TUPLE(BOOL_, BYTES_)), 1: dict(response=TUPLE(BOOL_, BYTES_))}
 
     def inv_frame(g, old): return block_frame(g, old) and g.nx >= old.g.nx + 1 and ok(g)
